@@ -101,6 +101,7 @@ type SpecFunc struct {
 	Result string
 	Body   Expr
 	Macro  bool
+	Opaque bool // definition hidden unless the contract says `reveal name`
 	Src    string
 }
 
@@ -126,6 +127,7 @@ type FuncContract struct {
 	Replay    string
 	Src       string
 	Fresh     []string // result names that are freshly allocated
+	Reveal    []string // opaque spec functions whose definition this function's obligations may use
 	Opts      map[string]string
 	AuxLabels map[string]bool
 }
